@@ -84,11 +84,13 @@ pub fn profile_for(prop: &str) -> Profile {
             p_panic: 6,
             w_abandon: 10,
             w_close: 1,
+            w_resize: 4,
             ..Profile::base("C02", "capacity")
         },
         "C03" => Profile {
             w_abandon: 25,
             w_advance: 10,
+            w_resize: 4,
             p_gate: 45,
             ..Profile::base("C03", "abandon")
         },
@@ -314,6 +316,10 @@ thread_local! {
     static STATES: std::cell::RefCell<std::collections::HashSet<u64>> = Default::default();
 }
 
+pub async fn drive_n(d: &mut Director, p: &Profile, rng: &mut Rng) {
+    drive(d, p, rng).await
+}
+
 async fn drive(d: &mut Director, p: &Profile, rng: &mut Rng) {
     let n_actions = rng.range((p.actions / 4) as u64, p.actions as u64) as usize;
     for _ in 0..n_actions {
@@ -514,6 +520,20 @@ pub async fn settle_and_probe(d: &mut Director, p: &Profile, rng: &mut Rng) {
     if before != after {
         d.world().viol(&["C08"], "background_work", format!("{} callbacks happened while the pool was left alone for an hour", after - before));
     }
+}
+
+pub fn case_json(engine: &str, prop: &str, seed: u64, idx: u64, out: &HistoryOut, max_lines: usize) -> Json {
+    let mut lines: Vec<Json> = out.log.iter().take(max_lines).map(|s| Json::from(s.as_str())).collect();
+    if out.log.len() > max_lines {
+        lines.push(Json::from(format!("... {} more lines", out.log.len() - max_lines)));
+    }
+    Json::obj()
+        .with("engine", engine)
+        .with("profile_prop", prop)
+        .with("seed", seed)
+        .with("index", idx)
+        .with("config", out.cfg.as_str())
+        .with("log", Json::Arr(lines))
 }
 
 pub fn history_json(p: &Profile, seed: u64, idx: u64, out: &HistoryOut, max_lines: usize) -> Json {
